@@ -5,8 +5,8 @@ import Mathlib.Algebra.Order.AbsoluteValue.Basic
 /-!
 # `C10i.InputsOK` — the hypothesis of the end-to-end theorem on the input functions
 Kept in a file of its own (importing neither the control-flow IR nor the analysis library) so that both `C10i` (whole-cycle theorems,
-namespace `Cycle` of the model) and `C19i` (the shipped input functions over ℝ, which import Mathlib's analysis and with it Mathlib's
-own `Cycle`) can speak about the same definition.
+namespace `MGCycle` of the model) and `C19i` (the shipped input functions over ℝ, Mathlib's analysis) speak about the same definition;
+`C19e` composes the two (the model's namespace was renamed from `Cycle`, which collides with Mathlib's `Cycle`, for that purpose).
 -/
 namespace C10i
 open Cache
